@@ -21,7 +21,9 @@ BUDGET = {"quick": 75, "thorough": 900}
 RULE = (
     "case = (container class, history of operations from the empty container); "
     "exhaustive part: every history up to depth D (quick 3, thorough 4) over the "
-    "fixed op alphabet EX_OPS (keys a,b; values 1,2); random part: Hypothesis "
+    "fixed op alphabet EX_OPS (keys a,b; values 1,2; pair arguments also as one-shot "
+    "generators / zip / items()-only and keys()-only objects / views of another "
+    "container; the container rebuilt through its constructor or copy()); random part: Hypothesis "
     "lists of up to 40 ops over keys a,b,c,d and values 1..3/lists/nested "
     "containers. After every step all public accessors are compared with a "
     "list-of-pairs model. Non-trivial = the history creates a duplicate key and "
@@ -85,9 +87,78 @@ def pairs_of(x):
     return [tuple(p) for p in x]
 
 
+class ItemsObj:
+    """Not a Mapping, but has .items() - which hands out a one-shot generator."""
+
+    def __init__(self, pairs):
+        self._pairs = list(pairs)
+
+    def items(self):
+        return (p for p in self._pairs)
+
+
+class KeysObj:
+    """The minimal 'mapping protocol' object dict.update() accepts: keys() + []."""
+
+    def __init__(self, pairs):
+        self._d = dict(pairs)
+
+    def keys(self):
+        return iter(list(self._d))
+
+    def __getitem__(self, k):
+        return self._d[k]
+
+
+CARRIERS = ("list", "tuple", "lol", "gen", "zip", "iter", "itemsobj", "omd",
+            "omd_items", "dict_items", "keysobj")
+UNIQUE_ONLY = ("dict_items", "keysobj")
+
+
+def carry(kind, pairs, cls):
+    """The same pairs handed over in different kinds of argument object."""
+    pairs = pairs_of(pairs)
+    if kind == "list":
+        return list(pairs)
+    if kind == "tuple":
+        return tuple(pairs)
+    if kind == "lol":
+        return [list(p) for p in pairs]
+    if kind == "gen":
+        return (p for p in pairs)
+    if kind == "zip":
+        return zip([k for k, _ in pairs], [v for _, v in pairs])
+    if kind == "iter":
+        return iter(list(pairs))
+    if kind == "itemsobj":
+        return ItemsObj(pairs)
+    if kind == "omd":
+        return cls(pairs)
+    if kind == "omd_items":
+        return cls(pairs).items()
+    if kind == "dict_items":
+        return dict(pairs).items()
+    if kind == "keysobj":
+        return KeysObj(pairs)
+    raise AssertionError(kind)
+
+
 def apply_model(lst, op):
     """Mutates *lst*; returns the documented return value."""
     name = op[0]
+    if name in ("rebuild", "copy"):
+        return None
+    if name == "extend_as":
+        lst.extend(pairs_of(op[2]))
+        return None
+    if name == "update_as":
+        for k, v in pairs_of(op[2]):
+            model_set(lst, k, v)
+        return None
+    if name == "insert_as":
+        i = op[2]
+        lst[i:i] = pairs_of(op[3])
+        return None
     if name == "append":
         lst.append((op[1], op[2]))
     elif name in ("extend_pairs", "extend_map", "extend_kw"):
@@ -150,6 +221,12 @@ def apply_model(lst, op):
 
 def apply_real(d, op, cls):
     name = op[0]
+    if name == "extend_as":
+        return d.extend(carry(op[1], op[2], cls))
+    if name == "update_as":
+        return d.update(carry(op[1], op[2], cls))
+    if name == "insert_as":
+        return d.insert(op[2], carry(op[1], op[3], cls))
     if name == "append":
         return d.append(op[1], op[2])
     if name == "extend_pairs":
@@ -208,6 +285,9 @@ def apply_real(d, op, cls):
 def op_valid(op):
     """Structural preconditions of the op encodings (not of the container)."""
     name = op[0]
+    if name in ("extend_as", "update_as") and op[1] in UNIQUE_ONLY:
+        ks = [p[0] for p in op[2]]
+        return len(ks) == len(set(ks))
     if name in ("extend_map", "extend_kw", "insert_map", "update_map",
                 "update_kw"):
         ks = [p[0] for p in op[1 if name != "insert_map" else 2]]
@@ -352,7 +432,15 @@ def run_history(clsname, history):
             except (KeyError, IndexError) as e:
                 mret = ("exc", type(e).__name__)
             try:
-                rret = ("ok", apply_real(d, op, cls))
+                if op[0] == "rebuild":
+                    # the constructor is documented to take what extend() takes
+                    d = cls(carry(op[1], list(d), cls))
+                    rret = ("ok", None)
+                elif op[0] == "copy":
+                    d = d.copy()
+                    rret = ("ok", None)
+                else:
+                    rret = ("ok", apply_real(d, op, cls))
             except Exception as e:
                 rret = ("exc", type(e).__name__)
             if op[0] in ("pop0", "popitem") and mret[0] == "exc" and \
@@ -418,6 +506,16 @@ def ex_ops():
             ("update_pairs", (("a", 2), ("b", 1))),
             ("update_map", (("b", 2),)),
             ("update_omd", (("a", 1), ("a", 2)))]
+    # the same pairs in other kinds of argument object (one-shot iterators, objects
+    # that only have items() or keys(), views of another container)
+    ops += [("extend_as", "gen", (("a", 1), ("a", 2))),
+            ("extend_as", "itemsobj", (("b", 1), ("a", 2))),
+            ("extend_as", "omd_items", (("a", 2), ("a", 1))),
+            ("update_as", "zip", (("a", 2), ("b", 1))),
+            ("update_as", "keysobj", (("b", 2), ("a", 1))),
+            ("insert_as", "lol", 1, (("b", 2), ("b", 1))),
+            ("rebuild", "gen"), ("rebuild", "omd"), ("rebuild", "itemsobj"),
+            ("copy",)]
     return ops
 
 
@@ -481,6 +579,17 @@ def op_strategy():
         st.tuples(st.just("update_map"), upairs),
         st.tuples(st.just("update_kw"), upairs),
         st.tuples(st.just("update_omd"), pairs),
+        st.tuples(st.just("extend_as"),
+                  st.sampled_from([c for c in CARRIERS if c != "keysobj"]),
+                  pairs).filter(op_valid),
+        st.tuples(st.just("update_as"),
+                  st.sampled_from([c for c in CARRIERS if c != "itemsobj"]),
+                  pairs).filter(op_valid),
+        st.tuples(st.just("insert_as"), st.sampled_from(["list", "tuple", "lol"]), I,
+                  st.lists(pair, min_size=3, max_size=4).map(tuple)),
+        st.tuples(st.just("rebuild"),
+                  st.sampled_from([c for c in CARRIERS if c not in UNIQUE_ONLY])),
+        st.tuples(st.just("copy")),
     )
 
 
